@@ -48,10 +48,20 @@ def flag_edge_justified(g: CFG, n: Node, lab, justified: EdgePred, start: Option
         v = getattr(d.ast, "value", None)
         if v is not None and not isinstance(v, ast.Constant):
             # `flag = E` followed by `if flag:` is the test `if E:` in disguise
-            pseudo = Node(-1, "test", v, loops=d.loops)
+            vv, ll = v, lab
+            while isinstance(vv, ast.UnaryOp) and isinstance(vv.op, ast.Not):
+                vv, ll = vv.operand, ("F" if ll == "T" else "T")
+            if isinstance(vv, ast.Call) and isinstance(vv.func, ast.Name) and vv.func.id == "bool" and len(vv.args) == 1:
+                vv = vv.args[0]
+            pseudo = Node(-1, "test", vv, loops=d.loops)
             try:
-                if justified(pseudo, lab):
+                if justified(pseudo, ll):
                     continue
+                if isinstance(vv, ast.Name):
+                    # flag = other_flag
+                    inner = Node(d.id, "test", vv, loops=d.loops)
+                    if flag_edge_justified(g, inner, ll, justified, start, depth + 1):
+                        continue
             except Exception:  # noqa: BLE001
                 pass
         def j2(t, l, depth=depth):
